@@ -1,0 +1,82 @@
+package internal
+
+import (
+	"context"
+	"testing"
+	"time"
+
+	"github.com/stretchr/testify/require"
+)
+
+// Set without ttl on a key whose previous value has expired but is not
+// reclaimed yet is a fresh insert: the new value is readable and never expires.
+func TestStore_SetNoTTLOnExpiredEntry(t *testing.T) {
+	store := NewStore[int, int](&StoreOptions[int, int]{MaxSize: 1000})
+	defer store.Close()
+	expired := make(chan int, 10)
+	store.removalListener = func(key, value int, reason RemoveReason) {
+		if reason == EXPIRED {
+			expired <- key
+		}
+	}
+	getEntry := func(key int) *Entry[int, int] {
+		_, index := store.index(key)
+		shard := store.shards[index]
+		tk := shard.mu.RLock()
+		defer shard.mu.RUnlock(tk)
+		return shard.hashmap[key]
+	}
+
+	require.True(t, store.Set(1, 1, 1, 5*time.Millisecond))
+	require.True(t, store.Set(2, 2, 1, 5*time.Millisecond))
+	require.True(t, store.Set(3, 3, 1, time.Hour))
+	store.Wait()
+	deadline := getEntry(3).expire.Load()
+	time.Sleep(10 * time.Millisecond)
+	_, ok := store.Get(1)
+	require.False(t, ok)
+
+	// set
+	require.True(t, store.Set(1, 10, 1, 0))
+	v, ok := store.Get(1)
+	require.True(t, ok)
+	require.Equal(t, 10, v)
+
+	// loading get, loader returns no ttl
+	loadingStore := NewLoadingStore(store)
+	loads := 0
+	loadingStore.Loader(func(ctx context.Context, key int) (Loaded[int], error) {
+		loads++
+		return Loaded[int]{Value: 20, Cost: 1}, nil
+	})
+	for i := 0; i < 3; i++ {
+		v, err := loadingStore.Get(context.TODO(), 2)
+		require.Nil(t, err)
+		require.Equal(t, 20, v)
+	}
+	require.Equal(t, 1, loads)
+
+	// a deadline which is not passed yet is kept
+	require.True(t, store.Set(3, 30, 1, 0))
+	store.Wait()
+	require.Equal(t, deadline, getEntry(3).expire.Load())
+
+	// the new values have no deadline and are never expired
+	store.policyMu.Lock()
+	scheduled := []bool{}
+	for _, key := range []int{1, 2, 3} {
+		scheduled = append(scheduled, getEntry(key).meta.wheelPrev != nil)
+	}
+	store.timerwheel.advance(store.timerwheel.clock.NowNano()+5*time.Second.Nanoseconds(), store.removeEntry)
+	store.policyMu.Unlock()
+	require.Equal(t, []bool{false, false, true}, scheduled)
+	require.Equal(t, 0, len(expired))
+	for key, value := range map[int]int{1: 10, 2: 20, 3: 30} {
+		v, ok := store.Get(key)
+		require.True(t, ok)
+		require.Equal(t, value, v)
+	}
+	require.Equal(t, int64(0), getEntry(1).expire.Load())
+	require.Equal(t, int64(0), getEntry(2).expire.Load())
+	require.Equal(t, deadline, getEntry(3).expire.Load())
+}
